@@ -26,7 +26,7 @@ echo "demo with change rc=$rc_mut ; without rc=$rc_orig"
 git -C /repo apply $sd/patch.diff || { echo "DOES NOT APPLY TO /repo"; exit 1; }
 out=$(mktemp -d /tmp/seedrun.XXXXXX)
 fired=""
-cd /verif
+cd ${VERIF_HOME:-/verif}
 for p in $checks; do
   VERIF_EVIDENCE_DIR=$out/ev VERIF_REPLAY_DIR=$out/rp timeout 3600 ./check $p --tier quick > $out/$p.log 2>&1
   rc=$?
